@@ -33,6 +33,10 @@ def op_to_labels(op):
         return "[LMethod %s 0 MConnCloseOk]" % c
     if k == "ACCEPT":
         return "[LAccept %s]" % c
+    if k == "BADM":
+        return "[LBadMethod %s %s]" % (c, f[2])
+    if k == "HB":
+        return "[LHeartbeat %s %s]" % (c, f[2])
     if k == "STARTOK":
         return "[LMethod %s 0 (MStartOk %s)]" % (c, cb(f[2]))
     if k == "TUNEOK":
